@@ -34,7 +34,7 @@ LEVEL_NOTE = "trusts the scripted peers' call log; sampling, not proof"
 KNOBS = dict(p_bounds=0.45, p_constraint=0.35, p_penalty=0.4, p_vector=0.15, max_ops=6, p_midrun_set=0.25)
 ORACLES = [oracles.EvaluatedOptimum]
 
-def gen_plan(seed, tier):
+def _gen_plan(seed, tier):
     from ..env import sub_rng
     r = sub_rng(seed, 'plan.c01.kind')
     if r.random() < 0.15:
@@ -51,7 +51,7 @@ def gen_plan(seed, tier):
         return plan
     return solverplan.gen_solver_plan(seed, tier, ID, KNOBS)
 
-def run_plan(plan):
+def _run_plan(plan):
     if plan.get('kind') == 'ensemble': return run_ensemble(plan)
     return solverplan.run_solver_plan(plan, ORACLES)
 
@@ -112,3 +112,27 @@ def run_ensemble(plan):
     tr = repr(canon(run.trace)) + repr(len(run.evals)) + repr(steps)
     return {'violations': V, 'digest': hashlib.sha1(tr.encode()).hexdigest(), 'probes': run.probes, 'fired': run.fired, 'sim_s': 0.0,
             'nontrivial': len(run.evals) > 2, 'stats': {'cost_calls': len(run.evals), 'steps': steps, 'ops': 0, 'seam_crossings': run.ncross}}
+
+
+# ---- the one-liner interfaces named by the property (fmin, fmin_powell, diffev, diffev2, lattice, buckshot)
+from .. import wrappers as _wr
+from ..env import sub_rng as _sub_rng
+P_WRAPPER = 0.1
+
+def gen_plan(seed, tier):
+    if _sub_rng(seed, 'plan.kind.wrapper').random() < P_WRAPPER:
+        return _wr.gen_wrapper_plan(seed, tier, ID, interrupts=(ID == 'C05'))
+    return _gen_plan(seed, tier)
+
+def run_plan(plan):
+    if plan.get('kind') == 'wrapper': return _wr.run_wrapper_plan(plan, (ID,))
+    return _run_plan(plan)
+
+_valid0 = valid
+_simplify0 = simplify
+def valid(plan):
+    if plan.get('kind') == 'wrapper': return True
+    return True if _valid0 is None else _valid0(plan)
+def simplify(plan):
+    if plan.get('kind') == 'wrapper': return _wr.simplify_wrapper_plan(plan)
+    return _simplify0(plan)
